@@ -492,7 +492,7 @@ func (g *Gen) Pipeline() Doc {
 	// `<<` merge (`- <<: {k1: v1}` then the other keys) or through a merge of an
 	// anchored mapping defined in the previous step's position; the denoted data
 	// and key order are unchanged ("merged keys stand where the merge key stood").
-	mg := g.pick("present.merge", 4)
+	mg := g.pick("present.merge", 5)
 	if mg == 3 {
 		// an inline merge whose only key is overridden by a later explicit key, placed first in every
 		// order-preserving mapping (unknown steps, legacy plugins mappings; the env block below): the denoted
@@ -557,6 +557,23 @@ func (g *Gen) Pipeline() Doc {
 		return Doc{In: sin, Expected: UMap("steps", sout), Descr: strings.Join(g.Trace, " "), Kinds: kinds}
 	}
 	in, out := g.mappingFrom("", PipelineFeatures, true)
+	var defsSrc *N
+	if mg == 4 {
+		// the first key of the first mapping step comes from an anchored mapping defined under a top-level
+		// `x-defs` key and merged with `<<: *m0`; the definitions themselves are unknown top-level data
+		for _, it := range sin.Items {
+			if it.K != KMap || it.AliasOf != nil || len(it.Keys) < 2 || it.Keys[0] == "<<" {
+				continue
+			}
+			src := &N{K: KMap, Anchor: "m0", Keys: []string{it.Keys[0]}, Vals: []*N{it.Vals[0]}}
+			it.Keys = append([]string{"<<"}, it.Keys[1:]...)
+			it.Vals = append([]*N{{AliasOf: src}}, it.Vals[1:]...)
+			defsSrc = src
+			out.Set("x-defs", Seq(Map(src.Keys[0], src.Vals[0].Clone())))
+			g.Trace = append(g.Trace, "merge=alias-to-top-level-definition")
+			break
+		}
+	}
 	if mg == 3 {
 		if e := in.Get("env"); e != nil && e.K == KMap && len(e.Keys) >= 2 {
 			last := e.Keys[len(e.Keys)-1]
@@ -573,6 +590,11 @@ func (g *Gen) Pipeline() Doc {
 		in.Keys = append([]string{in.Keys[last]}, in.Keys[:last]...)
 		in.Vals = append([]*N{in.Vals[last]}, in.Vals[:last]...)
 		g.Trace = append(g.Trace, "stepspos=first")
+	}
+	if defsSrc != nil {
+		// the definitions come first in the document (an alias must follow its anchor)
+		in.Keys = append([]string{"x-defs"}, in.Keys...)
+		in.Vals = append([]*N{Seq(defsSrc)}, in.Vals...)
 	}
 	return Doc{In: in, Expected: out, Descr: strings.Join(g.Trace, " "), Kinds: kinds}
 }
